@@ -293,7 +293,7 @@ def _unchanged(ctx, now, before, bucket, what):
 # families whose sequence routines document 'Scalars and arrays both work' (Hermite).  On the unchanged tree they read
 # x.shape / x.dtype and raise AttributeError for a Python float, which the single-order functions accept; the repair is
 # fixes/C08/04-hermite-seq-python-scalar.patch.  Put the four Hermite families here once it is in the repository.
-PYFLOAT_FAMILIES = ()
+PYFLOAT_FAMILIES = ('hermite_He', 'hermite_H', 'hermite_He_der', 'hermite_H_der')
 HISTORY = ['none', 'none', 'none', 'single-first', 'other-ns', 'other-x', 'other-params']
 ORDERS_AS = ['list', 'list', 'list', 'tuple', 'range', 'ndarray', 'ndarray-int32']
 
